@@ -9,23 +9,39 @@ cd /verif
 for P in $PROPS; do
   VERIF_COVER=1 GOCOVERDIR="$OUT/raw" ./check $P --tier quick 2>&1 | grep -v KNOWN-FINDING | tail -1
 done
-go tool covdata textfmt -i="$OUT/raw" -o "$OUT/profile.txt"
-( cd /repo && go tool cover -func="$OUT/profile.txt" ) > "$OUT/func.txt" || true
-python3 - "$OUT/profile.txt" > "$OUT/uncovered.txt" <<'PY'
-import sys,collections
-cov=collections.defaultdict(int)
-for l in open(sys.argv[1]):
-    if l.startswith('mode:'): continue
-    loc,n,c=l.rsplit(' ',2)
-    cov[loc]=max(cov[loc],int(c))
-byfile=collections.defaultdict(list)
+# the race and the plain binary have different counter modes: convert per binary (meta file), then merge
+for m in $(ls "$OUT/raw" | grep '^covmeta\.' | sed 's/covmeta\.//'); do
+  mkdir -p "$OUT/raw_$m"; mv "$OUT"/raw/*"$m"* "$OUT/raw_$m"/
+  go tool covdata textfmt -i="$OUT/raw_$m" -o "$OUT/prof_$m.txt"
+done
+python3 - "$OUT" > "$OUT/summary.txt" <<'PY'
+import sys,collections,glob
+out=sys.argv[1]
+cov=collections.defaultdict(int); nst={}
+for f in glob.glob(out+'/prof_*.txt'):
+    for l in open(f):
+        if l.startswith('mode:'): continue
+        loc,n,c=l.rsplit(' ',2)
+        cov[loc]=max(cov[loc],int(c)); nst[loc]=int(n)
+pre='github.com/multiversx/mx-chain-storage-go/'
+tot=collections.defaultdict(lambda:[0,0]); byfile=collections.defaultdict(list)
 for loc,c in cov.items():
     f,r=loc.split(':')
-    if c==0 and '/testscommon' not in f and f.startswith('github.com/multiversx/mx-chain-storage-go/'): byfile[f].append(r)
-for f in sorted(byfile):
-    print(f)
-    for r in sorted(byfile[f], key=lambda r:[int(x) for x in r.replace(',','.').split('.')]): print('   ',r)
+    if not f.startswith(pre) or '/testscommon' in f: continue
+    f=f[len(pre):]
+    tot[f][1]+=nst[loc]
+    if c>0: tot[f][0]+=nst[loc]
+    else: byfile[f].append(r)
+T=[0,0]
+for f in sorted(tot):
+    T[0]+=tot[f][0]; T[1]+=tot[f][1]
+    print("%5.1f%% %4d/%4d %s"%(100*tot[f][0]/max(1,tot[f][1]),tot[f][0],tot[f][1],f))
+print("TOTAL %.1f%% %d/%d"%(100*T[0]/T[1],T[0],T[1]))
+with open(out+'/uncovered.txt','w') as o:
+    for f in sorted(byfile):
+        o.write(f+'\n')
+        for r in sorted(byfile[f], key=lambda r:[int(x) for x in r.replace(',','.').split('.')]): o.write('    '+r+'\n')
 PY
 # restore the plain binaries
 rm -f /verif/harness/bin/harness /verif/harness/bin/harness-race
-echo "profile: $OUT/profile.txt ; uncovered blocks: $OUT/uncovered.txt ; per function: $OUT/func.txt"
+cat "$OUT/summary.txt"; echo "per-file summary: $OUT/summary.txt ; uncovered blocks: $OUT/uncovered.txt"
